@@ -20,6 +20,14 @@ CLAIMED = {
         "design_ref": "DESIGN.md §8 C03",
         "technique": "Lean 4 theorems over a hand model (structural induction, R1) + T0 generated tables + T1 model/implementation correspondence + metamorphic failing-input search",
     },
+    "C07": {
+        "text": "Proof (Lean 4): for every rule list, path environment and command the rule engine returns the last matching rule (R3), a non-matching rule is inert "
+        "wherever it is inserted, a matching rule decides the simple command's verdict (deny/ask carry the message), no match gives the built-in verdict, literal patterns "
+        "match exactly by whole-word prefix (exactly with |) – via a hand model of CPython's fnmatch – and env-assignment prefixes / transparent wrappers hide nothing from the rules. "
+        "Tied to config.py/analyzer.py by differential runs (fnmatch, match_command, analyze with the model computing rule lookups from the parsed config).",
+        "design_ref": "DESIGN.md §8 C07",
+        "technique": "Lean 4 theorems over a hand model (R3 last-match, fnmatch literal lemmas) + T0 tables + T1 correspondence + rule-by-rule failing-input search",
+    },
 }
 
 PENDING_REASON = "check not built yet in this round (DESIGN.md §10 build order); no technique other than Lean proof + correspondence is substituted"
